@@ -37,3 +37,10 @@ CASES = [
       "                    pref = (self.dt/ll) \n                    rho1 = pref*numpy.dot(self.KK.data,rho1)",
       "                    rho1 = numpy.dot(self.KK.data,rho1)*self.dt/ll"),
 ]
+
+CASES += [
+    m("populations stored in an integer array", "C17-D", PP,
+      "        pops = numpy.zeros((Nt,pini.shape[0]))", "        pops = numpy.zeros((Nt,pini.shape[0]), dtype=int)"),
+    t("result allocated with an explicit float type", PP,
+      "        pops = numpy.zeros((Nt,pini.shape[0]))", "        pops = numpy.zeros((Nt,pini.shape[0]), dtype=numpy.float64)"),
+]
